@@ -205,7 +205,7 @@ def check(case):
     text = case['text']
     toks = text.split()
     signal.signal(signal.SIGALRM, _alarm)
-    signal.alarm(20)
+    signal.setitimer(signal.ITIMER_REAL, 20, 1.0)     # repeating: a single raise can get lost
     try:
         try:
             p = ElectionProfile(data=text)
@@ -232,7 +232,7 @@ def check(case):
                         res.fail('constructor', 'constructor|%s' % exc_sig(e), 'Election(profile, rule=%s) raises %r on %r' % (r, e, text[:200]))
                         break
     finally:
-        signal.alarm(0)
+        signal.setitimer(signal.ITIMER_REAL, 0)
     res.tag('origin:' + case.get('origin', '?').split(':')[0])
     if len(toks) >= 4 and toks[0].isdigit() and toks[1].isdigit():
         res.tag('reaches-ballots')
